@@ -317,7 +317,7 @@ def _registry(run: Run, res: Resolver, cm) -> None:
 
 
 # ---------------------------------------------------------------- R08.6
-def _document_level(run: Run, vm) -> None:
+def _document_level(run: Run, vm, rule: str = "R08.6") -> None:
     uf = vm.func("Validator._validate_unknown_fields")
     cfg = CFG(uf.node)
     members = ["REJECT", "WARN", "IGNORE"]
@@ -336,25 +336,25 @@ def _document_level(run: Run, vm) -> None:
     for pol, sev in want.items():
         kws = seen.get(pol, [])
         ok = len(kws) == 1 and isinstance(kws[0].get("severity"), ast.Constant) and kws[0]["severity"].value == sev and "field_name" in ast.unparse(kws[0].get("field_path", ast.Constant("")))
-        run.instance("R08.6", vm.loc(uf.node), f"_validate_unknown_fields: {pol} appends severity={sev!r} with the field's name in field_path", ok=ok)
+        run.instance(rule, vm.loc(uf.node), f"_validate_unknown_fields: {pol} appends severity={sev!r} with the field's name in field_path", ok=ok)
         if not ok:
-            run.violation("R08.6", vm, uf.qualname, f"policy {pol}", f"under UNKNOWN_FIELDS::{pol} an unknown field does not produce exactly one entry of severity {sev!r} naming the field", line=uf.node.lineno)
+            run.violation(rule, vm, uf.qualname, f"policy {pol}", f"under UNKNOWN_FIELDS::{pol} an unknown field does not produce exactly one entry of severity {sev!r} naming the field", line=uf.node.lineno)
     ok = "IGNORE" not in seen
-    run.instance("R08.6", vm.loc(uf.node), "_validate_unknown_fields: IGNORE appends nothing", ok=ok)
+    run.instance(rule, vm.loc(uf.node), "_validate_unknown_fields: IGNORE appends nothing", ok=ok)
     if not ok:
-        run.violation("R08.6", vm, uf.qualname, "policy IGNORE", "UNKNOWN_FIELDS::IGNORE reports something")
+        run.violation(rule, vm, uf.qualname, "policy IGNORE", "UNKNOWN_FIELDS::IGNORE reports something")
     # every unknown field is reported: loop over sorted(unknown) without filter / break
     for n in walk_no_nested(uf.node):
         if isinstance(n, ast.For) and "unknown" in ast.unparse(n.iter):
             ok = ast.unparse(n.iter) == "sorted(unknown)" and not any(isinstance(x, (ast.Break, ast.Continue, ast.If)) for st in n.body for x in ast.walk(st))
-            run.instance("R08.6", vm.loc(n), f"every unknown field is reported: `for ... in {ast.unparse(n.iter)}` without filter", ok=ok)
+            run.instance(rule, vm.loc(n), f"every unknown field is reported: `for ... in {ast.unparse(n.iter)}` without filter", ok=ok)
             if not ok:
-                run.violation("R08.6", vm, uf.qualname, n.iter if ast.unparse(n.iter) != "sorted(unknown)" else n, "not every unknown field is reported (filtered / truncated / unsorted iteration)")
+                run.violation(rule, vm, uf.qualname, n.iter if ast.unparse(n.iter) != "sorted(unknown)" else n, "not every unknown field is reported (filtered / truncated / unsorted iteration)")
     unk = [n.value for n in walk_no_nested(uf.node) if isinstance(n, ast.Assign) and any(is_name(t, "unknown") for t in n.targets)]
     ok = len(unk) == 1 and ast.unparse(unk[0]) == "document_fields - schema_fields"
-    run.instance("R08.6", vm.loc(uf.node), "unknown = document_fields - schema_fields", ok=ok)
+    run.instance(rule, vm.loc(uf.node), "unknown = document_fields - schema_fields", ok=ok)
     if not ok:
-        run.violation("R08.6", vm, uf.qualname, "unknown = document_fields - schema_fields", "the set of unknown fields is no longer the plain difference of document and schema field names")
+        run.violation(rule, vm, uf.qualname, "unknown = document_fields - schema_fields", "the set of unknown fields is no longer the plain difference of document and schema field names")
     # fallback to REJECT
     vs = vm.func("Validator._validate_section")
     cfg = CFG(vs.node)
@@ -366,9 +366,9 @@ def _document_level(run: Run, vm) -> None:
                 fb_ok = True
         if isinstance(n, ast.IfExp) and isinstance(n.orelse, ast.Constant) and n.orelse.value == "REJECT" and "unknown_fields" in ast.unparse(n.body):
             default_ok = True
-    run.instance("R08.6", vm.loc(vs.node), "an unparsable UNKNOWN_FIELDS value falls back to REJECT; a missing POLICY defaults to REJECT", ok=fb_ok and default_ok)
+    run.instance(rule, vm.loc(vs.node), "an unparsable UNKNOWN_FIELDS value falls back to REJECT; a missing POLICY defaults to REJECT", ok=fb_ok and default_ok)
     if not (fb_ok and default_ok):
-        run.violation("R08.6", vm, vs.qualname, "UNKNOWN_FIELDS fallback", f"invalid policy -> REJECT fallback present={fb_ok}; default REJECT present={default_ok}")
+        run.violation(rule, vm, vs.qualname, "UNKNOWN_FIELDS fallback", f"invalid policy -> REJECT fallback present={fb_ok}; default REJECT present={default_ok}")
     # REQ missing
     req_appends = [n for n in cfg.nodes if n.ast is not None and any(isinstance(c, ast.Call) and ast.unparse(c.func) == "ValidationError" and any(k.arg == "code" and isinstance(k.value, ast.Constant) and k.value.value == "E003" for k in c.keywords) for c in ast.walk(n.ast))]
     ok = len(req_appends) == 1
@@ -387,23 +387,23 @@ def _document_level(run: Run, vm) -> None:
         has_ok = len(hdefs) == 1 and "isinstance(c, RequiredConstraint)" in ast.unparse(hdefs[0]) and ast.unparse(hdefs[0]).startswith("any(")
         ok = guard_ok and path_ok and val_ok and has_ok
         detail = f"guard `has_req and value is None`={guard_ok}, names the field={path_ok}, value=present_fields.get(field_name)={val_ok}, has_req=any(REQ member)={has_ok}"
-    run.instance("R08.6", vm.loc(vs.node), f"_validate_section: missing required field -> E003 ({detail})", ok=ok)
+    run.instance(rule, vm.loc(vs.node), f"_validate_section: missing required field -> E003 ({detail})", ok=ok)
     if not ok:
-        run.violation("R08.6", vm, vs.qualname, "REQ-missing test `has_req and value is None` -> E003", f"the missing-required-field check is not the documented one: {detail} (a field given as null, false or 0 would be misjudged, or the error would not name the field)")
+        run.violation(rule, vm, vs.qualname, "REQ-missing test `has_req and value is None` -> E003", f"the missing-required-field check is not the documented one: {detail} (a field given as null, false or 0 would be misjudged, or the error would not name the field)")
     # chain errors are all converted
     ev = [n for n in walk_no_nested(vs.node) if isinstance(n, ast.Call) and ast.unparse(n.func).endswith(".constraints.evaluate")]
     ok = len(ev) == 1 and {k.arg: ast.unparse(k.value) for k in ev[0].keywords} == {"value": "value", "path": "field_path"}
     loops = [n for n in walk_no_nested(vs.node) if isinstance(n, ast.For) and ast.unparse(n.iter) == "result.errors"]
     ok = ok and len(loops) == 1 and not any(isinstance(x, (ast.If, ast.Break, ast.Continue)) for st in loops[0].body for x in ast.walk(st))
-    run.instance("R08.6", vm.loc(vs.node), "_validate_section: the chain is evaluated on the present value and every one of its errors is reported", ok=ok)
+    run.instance(rule, vm.loc(vs.node), "_validate_section: the chain is evaluated on the present value and every one of its errors is reported", ok=ok)
     if not ok:
-        run.violation("R08.6", vm, vs.qualname, "chain evaluation and error conversion", "the field's chain is not evaluated on (value, field_path) or its errors are filtered before being reported")
+        run.violation(rule, vm, vs.qualname, "chain evaluation and error conversion", "the field's chain is not evaluated on (value, field_path) or its errors are filtered before being reported")
     # the skip of absent optional fields is exactly `value is None`
     skips = [n for n in walk_no_nested(vs.node) if isinstance(n, ast.If) and len(n.body) == 1 and isinstance(n.body[0], ast.Continue) and "value" in names_in(n.test) and "has_req" not in names_in(n.test)]
     ok = len(skips) == 1 and ast.unparse(skips[0].test) == "value is None"
-    run.instance("R08.6", vm.loc(vs.node), "_validate_section: only an absent value (None) skips chain evaluation", ok=ok)
+    run.instance(rule, vm.loc(vs.node), "_validate_section: only an absent value (None) skips chain evaluation", ok=ok)
     if not ok:
-        run.violation("R08.6", vm, vs.qualname, "if value is None: continue", "chain evaluation is skipped for something other than an absent (None) value")
+        run.violation(rule, vm, vs.qualname, "if value is None: continue", "chain evaluation is skipped for something other than an absent (None) value")
 
 
 # ---------------------------------------------------------------- R08.7
